@@ -1619,11 +1619,35 @@ def expand(fn, e, depth=0, keep=None):
         else:
             out.append(x)
     out = tuple(out)
+    if out and out[0] == 'call':
+        out = _iter_norm(out)
     if out and out[0] == 'call' and out[1] in _uncalled(fn.prog):
         v = ctor_value(fn.prog, out)
         if v is not None:
             return v
     return out
+
+
+def _iter_norm(e):
+    """one spelling for equivalent iterator searches: rfind(it, p) = find(rev(it), p); next(filter(it, p)) = find(it, p);
+    next(map(filter(it, p), f)) = Option::map(find(it, p), f)"""
+    path, args = e[1], e[2]
+    full = e[4] if len(e) > 4 else path
+    tp = e[3] if len(e) > 3 and isinstance(e[3], str) else path
+    mk = lambda p_, a_: ('call', p_, a_, p_, p_)
+    ends = lambda x_, suf: x_[1].endswith(suf) or (len(x_) > 3 and isinstance(x_[3], str) and x_[3].endswith(suf))
+    if (path.endswith('DoubleEndedIterator::rfind') or tp.endswith('DoubleEndedIterator::rfind')) and len(args) == 2:
+        return ('call', 'std::iter::Iterator::find', [mk('std::iter::Iterator::rev', [args[0]]), args[1]], 'std::iter::Iterator::find', full)
+    if (path.endswith('Iterator::next') or tp.endswith('Iterator::next')) and len(args) == 1:
+        r = strip(args[0])
+        if r[0] == 'call' and ends(r, 'Iterator::filter') and len(r[2]) == 2:
+            return ('call', 'std::iter::Iterator::find', [r[2][0], r[2][1]], 'std::iter::Iterator::find', full)
+        if r[0] == 'call' and ends(r, 'Iterator::map') and len(r[2]) == 2:
+            r2 = strip(r[2][0])
+            if r2[0] == 'call' and ends(r2, 'Iterator::filter') and len(r2[2]) == 2:
+                fnd = ('call', 'std::iter::Iterator::find', [r2[2][0], r2[2][1]], 'std::iter::Iterator::find', 'std::iter::Iterator::find')
+                return ('call', 'std::option::Option::<T>::map', [fnd, r[2][1]], 'std::option::Option::<T>::map', 'std::option::Option::<T>::map')
+    return e
 
 
 def _uncalled(P):
